@@ -8,7 +8,7 @@ CONFIG = {
         "check": "check_case", "monitor": "monitor_case", "model_out": "model_out",
         "case_type": "case",
         "ops_path": [2],            # (unit pool, key pool, ops)
-        "n_quick": 500, "n_thorough": 30000, "shard": 250,
+        "n_quick": 1000, "n_thorough": 30000, "shard": 250,
     }],
     "rule": "op lists of 5-40 calls (serve a stat vector; AddShield with 0-5 formula terms, flat value, source and "
             "target from 3 units, key from 4; RemoveShield; AbsorbDamage) on the real shield.Manager with a real "
